@@ -139,7 +139,7 @@ def invalidate(d0, kind, rng):
         if not places:
             return None
         pl = rng.choice(places)
-        bad = rng.choice(["KEY_NOPE", "ABS_Q", "xZZ", "", "key_a", "x12345"])
+        bad = rng.choice(["KEY_NOPE", "ABS_Q", "xZZ", "", "key_a", "x12345", "xx1e", "xxx0", "x", "X1e", "x-1", "x 1e", "0x1e"])
         if pl == "keys":
             rng.choice(allkeys).update(name=bad, code=-1)
         elif pl == "actions":
